@@ -148,7 +148,7 @@ fn worker_of_current_thread() -> usize {
 }
 
 /// the closure submitted for task `t` (1-based id) of the given kind
-fn make_task(ctl: Arc<Ctl>, t: usize, kind: String, rdv_timeout: Duration) -> impl FnOnce() + Send + 'static {
+fn make_task(ctl: Arc<Ctl>, t: usize, kind: String, flavour: String, rdv_timeout: Duration) -> impl FnOnce() + Send + 'static {
     move || {
         let w = worker_of_current_thread();
         ctl.nstart.fetch_add(1, Ordering::SeqCst);
@@ -198,10 +198,59 @@ fn make_task(ctl: Arc<Ctl>, t: usize, kind: String, rdv_timeout: Duration) -> im
             }
         }
         ctl.jitter(t as u64 * 31);
+        // C06: what the job does "inside": a connection through the real Server::process over a scripted transport
+        if flavour.starts_with("conn_") {
+            run_connection_flavour(&flavour);
+        }
         ctl.nfin.fetch_add(1, Ordering::SeqCst);
-        let mut st = ctl.st.lock().unwrap();
-        st.log.push(Obs::TaskEnd(w, t));
-        ctl.cv.notify_all();
+        {
+            let mut st = ctl.st.lock().unwrap();
+            st.log.push(Obs::TaskEnd(w, t));
+            ctl.cv.notify_all();
+        }
+        if kind == "panic" {
+            panic!("scripted job failure (task {})", t);
+        }
+    }
+}
+
+#[derive(Copy, Clone)]
+struct PanicApp;
+impl rws::application::Application for PanicApp {
+    fn execute(&self, _r: &rws::request::Request, _c: &rws::server::ConnectionInfo) -> Result<rws::response::Response, String> {
+        panic!("scripted handler panic")
+    }
+}
+
+/// one connection as the accept loop would hand it to a worker (same call as in Server::run)
+fn run_connection_flavour(flavour: &str) {
+    use crate::http::*;
+    use rws::core::New;
+    let valid = b"GET /nx.html HTTP/1.1\r\nHost: localhost\r\n\r\n".to_vec();
+    let (mut mock, _wire) = match flavour {
+        "conn_garbage" => Mock::new(vec![0xff, 0xfe, 0x00, 0x0a, 0x0a]),
+        "conn_empty" => Mock::new(vec![]),
+        "conn_bad_length" => Mock::new(b"GET / HTTP/1.1\r\nContent-Length: a\r\n\r\n".to_vec()),
+        "conn_no_path" => Mock::new(b"GET x HTTP/1.1\r\n\r\n".to_vec()),
+        "conn_many_lines" => Mock::new([b"GET / HTTP/1.1\r\n".to_vec(), b"a\n".repeat(4990)].concat()),
+        _ => Mock::new(valid),
+    };
+    match flavour {
+        "conn_read_err" => mock.read_error = true,
+        "conn_write_err" => mock.write_script = vec![WriteStep::Error],
+        "conn_write_err_mid" => mock.write_script = vec![WriteStep::Accept(17), WriteStep::Error],
+        "conn_flush_err" => mock.flush_error = true,
+        "conn_short" => mock.write_script = (0..100000).map(|_| WriteStep::Accept(3)).collect(),
+        _ => {}
+    }
+    // exactly the closure body of Server::run: errors are printed, panics propagate to the worker loop
+    let boxed_process = if flavour == "conn_handler_panic" {
+        rws::server::Server::process(mock, connection_info(10000), PanicApp)
+    } else {
+        rws::server::Server::process(mock, connection_info(10000), rws::app::App::new())
+    };
+    if boxed_process.is_err() {
+        eprintln!("{}", boxed_process.err().unwrap());
     }
 }
 
@@ -215,7 +264,7 @@ fn kinds_of(v: &Value) -> Vec<String> {
 }
 
 /// Drive the real pool through one TLC behaviour.
-fn replay(case: &Value, out: &mut Out, step_timeout: Duration) -> bool {
+fn replay(case: &Value, flavours: &[String], out: &mut Out, step_timeout: Duration) -> bool {
     let n = case["n"].as_u64().unwrap() as usize;
     let kinds = kinds_of(&case["kind"]);
     out.emit(&json!({"ev":"Reset","mode":"replay","n":n,"kind":kinds}));
@@ -241,7 +290,8 @@ fn replay(case: &Value, out: &mut Out, step_timeout: Duration) -> bool {
         let (got, skipped) = match a {
             "Submit" => {
                 let kind = kinds[t - 1].clone();
-                pool.execute(make_task(ctl.clone(), t, kind, Duration::from_secs(20)));
+                let flavour = flavours.get(t - 1).cloned().unwrap_or_default();
+                pool.execute(make_task(ctl.clone(), t, kind, flavour, Duration::from_secs(20)));
                 out.emit(&json!({"ev":"Submit","t":t}));
                 continue;
             }
@@ -300,7 +350,7 @@ fn replay(case: &Value, out: &mut Out, step_timeout: Duration) -> bool {
 }
 
 /// Let the real pool run on its own with perturbed timing, log what the hooks see.
-fn free_run(n: usize, kinds: &[String], seed: u64, out: &mut Out, quiesce_timeout: Duration) -> bool {
+fn free_run(n: usize, kinds: &[String], flavours: &[String], seed: u64, out: &mut Out, quiesce_timeout: Duration) -> bool {
     out.emit(&json!({"ev":"Reset","mode":"free","n":n,"kind":kinds,"seed":seed}));
     let ctl = Ctl::new(n, false, seed | 1);
     install(&ctl);
@@ -313,7 +363,7 @@ fn free_run(n: usize, kinds: &[String], seed: u64, out: &mut Out, quiesce_timeou
             let mut st = ctl.st.lock().unwrap();
             st.log.push(Obs::Hook(Point::BeforeSend, t));
         }
-        pool.execute(make_task(ctl.clone(), t, kinds[t - 1].clone(), quiesce_timeout));
+        pool.execute(make_task(ctl.clone(), t, kinds[t - 1].clone(), flavours.get(t - 1).cloned().unwrap_or_default(), quiesce_timeout));
         match rng.gen_range(0..6) {
             0 => std::thread::sleep(Duration::from_micros(rng.gen_range(10..800))),
             1 => std::thread::yield_now(),
@@ -374,12 +424,13 @@ pub fn run(o: &Opts) -> i32 {
     let step_timeout = Duration::from_millis(o.num("step-timeout-ms", 3000));
     let mut n = o.num("n", 0) as usize;
     let mut kinds: Vec<String> = o.get("kind").map(|s| s.split(',').filter(|x| !x.is_empty()).map(|x| x.to_string()).collect()).unwrap_or_default();
+    let flavours: Vec<String> = o.get("flavour").map(|s| s.split(',').map(|x| x.to_string()).collect()).unwrap_or_default();
     let mut replayed = 0;
     if let Some(cases) = o.get("cases") {
         for c in read_ndjson(cases) {
             n = c["n"].as_u64().unwrap() as usize;
             kinds = kinds_of(&c["kind"]);
-            let stalled = replay(&c, &mut out, step_timeout);
+            let stalled = replay(&c, &flavours, &mut out, step_timeout);
             replayed += 1;
             if stalled {
                 // a refusal leaves threads of this pool parked for good; stop this configuration here
@@ -394,7 +445,7 @@ pub fn run(o: &Opts) -> i32 {
     let free = o.num("free", 0);
     let seed = o.num("seed", 1);
     for i in 0..free {
-        let done = free_run(n, &kinds, seed.wrapping_mul(1000003).wrapping_add(i), &mut out, Duration::from_millis(o.num("quiesce-timeout-ms", 4000)));
+        let done = free_run(n, &kinds, &flavours, seed.wrapping_mul(1000003).wrapping_add(i), &mut out, Duration::from_millis(o.num("quiesce-timeout-ms", 4000)));
         if !done {
             break; // stuck threads of this pool would report into later runs
         }
